@@ -23,6 +23,7 @@ import (
 	"berty.tech/go-orbit-db/stores"
 	"berty.tech/go-orbit-db/stores/operation"
 	"berty.tech/go-orbit-db/stores/replicator"
+	"berty.tech/go-orbit-db/verifhook"
 	"github.com/ipfs/boxo/path"
 	cid "github.com/ipfs/go-cid"
 	datastore "github.com/ipfs/go-datastore"
@@ -658,6 +659,7 @@ func (b *BaseStore) Sync(ctx context.Context, heads []ipfslog.Entry) error {
 		span.AddEvent("store-sync-head-verified")
 	}
 
+	verifhook.Point("store.sync.spawn", b.replicator, heads)
 	go b.Replicator().Load(ctx, heads)
 
 	return nil
@@ -840,6 +842,7 @@ func (b *BaseStore) AddOperation(ctx context.Context, op operation.Operation, on
 	if err != nil {
 		return nil, fmt.Errorf("unable to append data on log: %w", err)
 	}
+	verifhook.Point("store.addop.appended", b.replicator, e)
 
 	b.recalculateReplicationStatus(e.GetClock().GetTime())
 
@@ -852,6 +855,7 @@ func (b *BaseStore) AddOperation(ctx context.Context, op operation.Operation, on
 	if err != nil {
 		return nil, fmt.Errorf("unable to add data to cache: %w", err)
 	}
+	verifhook.Point("store.addop.persisted", b.replicator, e)
 
 	if err := b.updateIndex(ctx); err != nil {
 		return nil, fmt.Errorf("unable to update index: %w", err)
@@ -943,6 +947,7 @@ func (b *BaseStore) generateEmitter(bus event.Bus) error {
 }
 
 func (b *BaseStore) replicationLoadComplete(ctx context.Context, logs []ipfslog.Log) {
+	defer verifhook.Point("store.loadcomplete.done", b.replicator, logs)
 	b.muJoining.Lock()
 	defer b.muJoining.Unlock()
 
@@ -1051,6 +1056,7 @@ func (b *BaseStore) storeListener(topic iface.PubSubTopic) error {
 }
 
 func (b *BaseStore) handleEventWrite(ctx context.Context, e *stores.EventWrite, topic iface.PubSubTopic) error {
+	defer verifhook.Point("store.write.handled", b.replicator, e)
 	b.logger.Debug("received stores.write event")
 
 	if len(e.Heads) == 0 {
